@@ -177,13 +177,7 @@ theorem foldParS_reset {B path : List Scope}
 
 /-! ## independence -/
 
-/-- `x` neither encloses nor is nested in another scope of `sc` -/
-def Independent (sc : List Scope) (x : Scope) : Prop :=
-  ∀ y ∈ sc, y ≠ x → x.contains y = false ∧ y.contains x = false
-
-/-- strictly sorted by header start -/
-def StartSorted (sc : List Scope) : Prop :=
-  sc.Pairwise (fun a b => a.hdr.rng.s < b.hdr.rng.s)
+/-! `Independent sc x` and `StartSorted sc` are defined in `CodeLimit/Spec/Nocl.lean`. -/
 
 theorem StartSorted.nodup {sc : List Scope} (h : StartSorted sc) : sc.Nodup := by
   unfold StartSorted at h
